@@ -3,7 +3,7 @@
 import json, os, subprocess
 V = os.path.dirname(os.path.dirname(os.path.abspath(__file__)))
 
-NOTE = ("Trusted base: Go runtime and testing/synctest (virtual clock, quiescence; four runtime files are overlaid so that the order of same-instant timers, select polling, map seeds and sysmon preemption are seeded or off), the harness (plan generator, simulated receiver "
+NOTE = ("Trusted base: Go runtime and testing/synctest (virtual clock, quiescence; five runtime files are overlaid so that the order of same-instant timers, select polling, map seeds and sysmon preemption are seeded or off), the harness (plan generator, simulated receiver "
         "world, gossip transport, disk, reference models), one shared clock per run. Sampling, not enumeration, unless stated.")
 
 SIM = "deterministic simulation: whole real app.New instance in a testing/synctest bubble (virtual clock, seeded tie-breaking in the overlaid runtime), simulated receivers/disk, seeded plan generator with fault injection and scheduling holds (named yield sites; one-shot suspensions before critical sections of the lock-instrumented packages), reference-model oracles over the recorded history, delta-debugging shrinker, replay twice before reporting"
